@@ -284,9 +284,15 @@ def quant_cases(sh, rng, n):
             body = rng.choice([m.And, m.Or, m.Implies, m.Iff])(body, rng.choice(atoms))
         depth = rng.choice([1, 1, 2, 3])
         f = body
+        budget = 5          # at most 5 binders per formula: the oracle enumerates |dom|^binders instantiations
         for _ in range(depth):
-            vs = rng.sample(u.qvars, rng.choice([1, 1, 2, 3]))
-            if rng.random() < 0.15:
+            k = min(rng.choice([1, 1, 2, 3]), budget)
+            if k == 0:
+                break
+            budget -= k
+            vs = rng.sample(u.qvars, k)
+            if rng.random() < 0.15 and budget > 0:
+                budget -= 1
                 vs = vs + [vs[0]]
             f = (m.ForAll if rng.random() < 0.5 else m.Exists)(vs, f)
             if rng.random() < 0.3:
@@ -512,6 +518,27 @@ def all_ops(f, acc):
         stack.extend(n.args())
 
 
+def binder_depth(f):
+    """largest number of bound variables on a path of the formula (cost of the oracle is |dom|^this)"""
+    memo = {}
+    stack = [(f, False)]
+    while stack:
+        n, done = stack.pop()
+        if id(n) in memo:
+            continue
+        if done:
+            d = max([memo[id(c)] for c in n.args()], default=0)
+            if n.is_quantifier():
+                d += len(n.quantifier_vars())
+            memo[id(n)] = d
+        else:
+            stack.append((n, True))
+            for c in n.args():
+                if id(c) not in memo:
+                    stack.append((c, False))
+    return memo[id(f)]
+
+
 def simplify_case(env, f):
     """-> ("ok", g) | ("exc", name, text)"""
     try:
@@ -580,6 +607,9 @@ def run(ctx):
         if ctx.time_left() < 60:
             ctx.count("generation_cut_by_budget")
             break
+        if binder_depth(f) > 6:
+            ctx.count("skipped_more_than_6_nested_binders")
+            continue
         res = simplify_case(env, f)
         root = root_name(f)
         ctx.count("stream_" + tag.split(":")[0])
